@@ -445,6 +445,26 @@ func checkHist(c histCase) *vk.Failure {
 	if math.Abs(total.sub(totalW).f()) > tolT {
 		return vk.Failf("histogram-conservation", "sum of bins %v total weight %v %s", total.f(), totalW.f(), ctx)
 	}
+	// a reused count slice and an empty sample: every bin holds the weight of
+	// the points in it, which is zero ("count must either be nil or have
+	// length of one less than dividers" is the only condition on count)
+	{
+		stale := cloneF(got)
+		var e []float64
+		emptyW := []float64{}
+		if w == nil {
+			emptyW = nil
+		}
+		if f := vk.MustReturn("histogram-empty-sample", func() { e = stat.Histogram(stale, cloneF(div), []float64{}, emptyW) }); f != nil {
+			f.Msg += " " + ctx
+			return f
+		}
+		for j, v := range e {
+			if v != 0 {
+				return vk.Failf("histogram-empty-sample-stale-count", "empty sample with a reused count slice: bin %d = %v, want 0 (count held %v before the call) %s", j, v, got, ctx)
+			}
+		}
+	}
 	// ones == nil, replication
 	if c.S.WC == wcOnes {
 		g2 := stat.Histogram(nil, div, x, nil)
